@@ -16,6 +16,12 @@ rule("C12.a", "time homogeneity: whatever reaches c, l, u, b or a dispatch facto
               "step length, each duration is converted to steps), and no two quantities of different degree are added", floor=30)
 rule("C12.f", "a running sum of step lengths is compared with a duration given by the user with a tolerance: k steps of 1/24 day do not sum "
               "to exactly k/24, so an exact <= drops the last step for some main time units", floor=1)
+rule("C12.h", "a conversion helper returns the converted quantity on every path: what it returns is the result of the unit conversion, "
+              "possibly rounded - never the raw argument again (rounding the value in main time units instead of the value in grid "
+              "steps)", floor=1, props=["C12", "C06"])
+rule("C12.i", "unit conversion stays exact: the value is multiplied by a Timedelta before it is divided by a Timedelta (integer nanoseconds); "
+              "the ratio of two frequencies is never formed as a float first (7 steps would come out as 7.000000000000001 and be rounded "
+              "up to 8)", floor=1, props=["C12", "C06"])
 rule("C20.j", "order book: the cost of an order is capacity x price x covered step lengths x discount factor and its delivered "
               "volume capacity x step length - time degree 0, discounted exactly once (the degree rules C12.a / C02.b on OrderBook)", floor=2)
 rule("C02.a", "time homogeneity of bounds, costs and take right-hand sides of storages, contracts and transports", floor=15,
@@ -48,7 +54,7 @@ def _verdict(vals, want_t, want_d):
     return True, []
 
 
-@analysis("degrees", ["C12.a", "C02.a", "C02.b", "C12.c", "C19.d", "C08.e", "C12.e", "C20.j", "C12.f"])
+@analysis("degrees", ["C12.a", "C02.a", "C02.b", "C12.c", "C19.d", "C08.e", "C12.e", "C20.j", "C12.f", "C12.h", "C12.i"])
 def run(ctx):
     p = ctx.p
     summaries = {}
@@ -229,3 +235,42 @@ def run(ctx):
                    "(hours on a grid in days: 1/24) ten steps sum to slightly more than 10/24 and the tenth step drops out of the window - "
                    "the same storage with max_store_duration of 10 hours is worth 100 in 'h' and 'min' but 99 in 'd'" % au.short(other, 40), node=n)
     ctx.require(n_f >= 1, "no comparison of accumulated step lengths with a duration found (max_store_duration window)", rules=['C12.f'])
+
+    # ================================================================= C12.h converters return the converted value
+    for fn in sorted(p.all_functions(), key=lambda f: f.qualname):
+        if fn.parent is not None or not fn.name.startswith("convert_to_"):
+            continue
+        rets = [r for r in au.walk_stmts(fn.body) if isinstance(r, ast.Return) and isinstance(r.value, ast.Name)]
+        if not rets:
+            continue
+        rv = rets[-1].value.id
+        raw = [q.name for q in fn.params if q.name not in ("self", "cls")][:1]
+        defs_ = [st for st in au.walk_stmts(fn.body) if isinstance(st, ast.Assign) and any(isinstance(t0, ast.Name) and t0.id == rv for t0 in st.targets)]
+        conv = [st for st in defs_ if isinstance(st.value, ast.Call) and (au.method_name(st.value) or "").startswith("convert_")]
+        if not conv or not raw:
+            ctx.ob("C12.h", fn, "returned value", None, "conversion call defining the returned variable not found")
+            continue
+        bad = [st for st in defs_ if st not in conv and raw[0] in au.names_in(st.value) and rv not in au.names_in(st.value)]
+        ctx.ob("C12.h", fn, "%s is the converted value on every path" % rv, not bad,
+               "`%s` puts a function of the raw argument %s (still in main time units) into the returned variable: on a grid whose step is "
+               "not one main time unit the caller gets main time units where it expects grid steps - min_runtime 1.1 h on a 15 min grid "
+               "becomes 2 steps instead of 5, min_downtime 0.6 h becomes 1 step (no downtime restriction at all)" % (
+                   au.short(bad[0], 60) if bad else "", raw[0]), node=(bad[0] if bad else rets[-1]))
+
+    # ================================================================= C12.i exact conversion
+    cv = p.fn_opt("assets.convert_time_unit")
+    if cv is None:
+        ctx.ob("C12.i", "assets", "convert_time_unit", None, "convert_time_unit not found")
+    else:
+        vname = cv.params[0].name if cv.params else None
+        is_td = lambda e: any(isinstance(c, ast.Call) and au.method_name(c) in ("to_timedelta", "Timedelta") for c in au.walk_local(e))
+        divs = [n for n in au.walk_local(cv.node, include_self=False) if isinstance(n, ast.BinOp) and isinstance(n.op, ast.Div) and is_td(n.right)]
+        if not divs:
+            ctx.ob("C12.i", cv, "division by a Timedelta", None, "no division by a Timedelta found")
+        for d in divs:
+            left = d.left
+            has_value = vname in au.names_in(left) or any(vname in au.names_in(ctx.resolve(cv, x, p.enclosing_stmt(d))) for x in au.walk_local(left) if isinstance(x, ast.Name))
+            ctx.ob("C12.i", cv, au.short(d, 70), has_value or not is_td(left),
+                   "two durations are divided before the value is multiplied in: the quotient is a float (1/300 for seconds on a 5 min grid) that "
+                   "is not exactly representable, so whole numbers of steps come out one ulp too large (2100 s -> 7.000000000000001 steps) and "
+                   "the caller's ceil() adds a step - the same plant has a minimum runtime of 8 steps in 's' and 7 in 'h'", node=d)
